@@ -24,6 +24,8 @@ RecOK(r) ==
          /\ r.enc = s.len
          /\ SendFits(r.enc, r.max)
     [] r.fn = "send" -> (r.res = "sent") = SendFits(r.len, r.max)
+    \* a new connection on a real pool: its two frames arrive as two messages, whatever an earlier connection left unfinished
+    [] r.fn = "conns" -> r.delivered = r.sent
     [] OTHER -> FALSE
 
 Conforms == RecOK(Recs[l]) \/ PrintT(<<"MISMATCH", "rec", l, Recs[l].fn>>)
